@@ -115,19 +115,24 @@ func ruleTB5() Rule {
 				fi := f.Info()
 				f.OwnNodes(func(n ast.Node) bool {
 					call, ok := n.(*ast.CallExpr)
-					if !ok || len(call.Args) != 1 {
+					if !ok {
 						return true
 					}
-					se, ok := call.Fun.(*ast.SelectorExpr)
-					if !ok || !strings.HasSuffix(calleeName(fi, call), "ast.Pos.shift") {
+					var posExpr, widthExpr ast.Expr
+					if se, ok := call.Fun.(*ast.SelectorExpr); ok && len(call.Args) == 1 && strings.HasSuffix(calleeName(fi, call), "ast.Pos.shift") {
+						posExpr, widthExpr = se.X, call.Args[0]
+					} else if pi, ni, ok := c.shiftWrapper(fi, call); ok && pi < len(call.Args) && ni < len(call.Args) {
+						// a helper of the package that shifts the position it is handed by the width it is handed
+						posExpr, widthExpr = call.Args[pi], call.Args[ni]
+					} else {
 						return true
 					}
-					v := core.FieldOf(fi, se.X)
-					nv, isConst := constInt(fi, call.Args[0])
+					v := core.FieldOf(fi, posExpr)
+					nv, isConst := constInt(fi, widthExpr)
 					if v == nil || !isConst {
 						return true
 					}
-					field := ownerOfField(fi, se.X) + "." + v.Name()
+					field := ownerOfField(fi, posExpr) + "." + v.Name()
 					key := f.Name + "|" + exprStr(call)
 					sps := width[field]
 					if len(sps) == 0 {
@@ -417,11 +422,17 @@ func ruleTB8() Rule {
 					continue
 				}
 				var got map[rune]bool
-				for _, sw := range switches(c.P, f) {
-					if cl := sw.clauseFor('@'); cl != nil {
-						got = map[rune]bool{}
-						for r := range cl.runes {
-							got[r] = true
+				other := map[*core.Func]bool{c.fn("parser.(*lexer).scanParamExp"): true, c.fn("parser.(*lexer).scanParamExpInBraces"): true}
+				for _, ff := range c.region(f) {
+					if got != nil || (ff != f && other[ff]) {
+						continue // the function's own clause first; the sibling scanner is checked on its own
+					}
+					for _, sw := range switches(c.P, ff) {
+						if cl := sw.clauseFor('@'); cl != nil {
+							got = map[rune]bool{}
+							for r := range cl.runes {
+								got[r] = true
+							}
 						}
 					}
 				}
@@ -457,6 +468,9 @@ func ruleTB10() Rule {
 			info := f.Info()
 			produced := map[string]bool{}
 			caseRunes := func(n ast.Node) []rune {
+				if h := c.P.EnclosingFunc(n); h != nil {
+					info = h.Info()
+				}
 				cc := enclosingCase(c.P, n)
 				var out []rune
 				if cc != nil {
@@ -469,7 +483,8 @@ func ruleTB10() Rule {
 				return out
 			}
 			undecided := false
-			f.OwnNodes(func(n ast.Node) bool {
+			c.regionNodes(f, func(fn *core.Func, n ast.Node) bool {
+				info := fn.Info()
 				as, ok := n.(*ast.AssignStmt)
 				if !ok || len(as.Lhs) != 1 || !fieldSel(info, as.Lhs[0], "ast", "ParamExp", "Op") {
 					return true
@@ -514,18 +529,21 @@ func ruleTB10() Rule {
 				return
 			}
 			// handled: case labels of switches on pe.Op and == comparisons with pe.Op
-			ginfo := g.Info()
 			handled := map[string]bool{}
-			for _, sw := range switches(c.P, g) {
-				if sw.sw.Tag != nil && fieldSel(ginfo, sw.sw.Tag, "ast", "ParamExp", "Op") {
-					for _, cl := range sw.clauses {
-						for s := range cl.strs {
-							handled[s] = true
+			for _, gg := range c.region(g) {
+				gi := gg.Info()
+				for _, sw := range switches(c.P, gg) {
+					if sw.sw.Tag != nil && fieldSel(gi, sw.sw.Tag, "ast", "ParamExp", "Op") {
+						for _, cl := range sw.clauses {
+							for s := range cl.strs {
+								handled[s] = true
+							}
 						}
 					}
 				}
 			}
-			g.OwnNodes(func(n ast.Node) bool {
+			c.regionNodes(g, func(gg *core.Func, n ast.Node) bool {
+				ginfo := gg.Info()
 				if be, ok := n.(*ast.BinaryExpr); ok && be.Op == token.EQL && fieldSel(ginfo, be.X, "ast", "ParamExp", "Op") {
 					if s, ok := constStr(ginfo, be.Y); ok {
 						handled[s] = true
@@ -716,4 +734,50 @@ func (c *Ctx) globalMapKeys(info *types.Info, e ast.Expr) []string {
 		}
 	}
 	return keys
+}
+
+// shiftWrapper recognises a call of a function of package ast whose body
+// returns <pos parameter>.shift(<int parameter>) and gives the positions of
+// those two parameters.
+func (c *Ctx) shiftWrapper(info *types.Info, call *ast.CallExpr) (posIdx, nIdx int, ok bool) {
+	fo := core.StaticCallee(info, call)
+	if fo == nil {
+		return 0, 0, false
+	}
+	h := c.P.FuncOf(fo)
+	if h == nil || h.Pkg.Name != "ast" || h.Body == nil || h.Type.Params == nil || (h.Decl != nil && h.Decl.Recv != nil) {
+		return 0, 0, false
+	}
+	hi := h.Info()
+	idx := map[types.Object]int{}
+	k := 0
+	for _, fld := range h.Type.Params.List {
+		for _, nm := range fld.Names {
+			idx[hi.Defs[nm]] = k
+			k++
+		}
+	}
+	found := false
+	h.OwnNodes(func(n ast.Node) bool {
+		sc, isCall := n.(*ast.CallExpr)
+		if !isCall || len(sc.Args) != 1 {
+			return true
+		}
+		se, isSel := sc.Fun.(*ast.SelectorExpr)
+		if !isSel || !strings.HasSuffix(calleeName(hi, sc), "ast.Pos.shift") {
+			return true
+		}
+		pid, ok1 := ast.Unparen(se.X).(*ast.Ident)
+		nid, ok2 := ast.Unparen(sc.Args[0]).(*ast.Ident)
+		if !ok1 || !ok2 {
+			return true
+		}
+		pi, okp := idx[hi.Uses[pid]]
+		ni, okn := idx[hi.Uses[nid]]
+		if okp && okn {
+			posIdx, nIdx, found = pi, ni, true
+		}
+		return true
+	})
+	return posIdx, nIdx, found
 }
